@@ -1,0 +1,166 @@
+//go:build verif
+
+package scorch
+
+import (
+	"fmt"
+	"os"
+	"sort"
+	"time"
+
+	"github.com/blevesearch/bleve/v2/util"
+)
+
+// Exported views of the snapshot retention arithmetic of the persister, for the /verif
+// correspondence harness (cmd/c13ret).  Built only with -tags verif.  Every function calls the
+// real unexported code on a throw-away *Scorch value that has just the fields set which that
+// code reads.
+
+// VerifSnapMeta is a snapshotMetaData with the time stamp as Unix nanoseconds.
+type VerifSnapMeta struct {
+	Epoch     uint64 `json:"epoch"`
+	TimeNanos int64  `json:"ts"`
+}
+
+func verifMetaIn(in []VerifSnapMeta) []*snapshotMetaData {
+	rv := make([]*snapshotMetaData, 0, len(in))
+	for _, m := range in {
+		rv = append(rv, &snapshotMetaData{epoch: m.Epoch, timeStamp: time.Unix(0, m.TimeNanos).UTC()})
+	}
+	return rv
+}
+
+func verifMetaOut(in []*snapshotMetaData) []VerifSnapMeta {
+	rv := make([]VerifSnapMeta, 0, len(in))
+	for _, m := range in {
+		rv = append(rv, VerifSnapMeta{Epoch: m.epoch, TimeNanos: m.timeStamp.UnixNano()})
+	}
+	return rv
+}
+
+// the map as a list sorted by epoch (the map has one entry per epoch)
+func verifMapOut(m map[uint64]time.Time) []VerifSnapMeta {
+	rv := make([]VerifSnapMeta, 0, len(m))
+	for e, t := range m {
+		rv = append(rv, VerifSnapMeta{Epoch: e, TimeNanos: t.UnixNano()})
+	}
+	sort.Slice(rv, func(i, j int) bool { return rv[i].Epoch < rv[j].Epoch })
+	return rv
+}
+
+// VerifTimeSeriesSnapshots is getTimeSeriesSnapshots; the result sorted by epoch.
+func VerifTimeSeriesSnapshots(maxDataPoints int, intervalNanos int64, snapshots []VerifSnapMeta) []VerifSnapMeta {
+	return verifMapOut(getTimeSeriesSnapshots(maxDataPoints, time.Duration(intervalNanos), verifMetaIn(snapshots)))
+}
+
+// VerifProtectedSnapshots is getProtectedSnapshots followed by newCheckPoints of its result
+// (what removeOldBoltSnapshots stores in s.checkPoints).  protected is sorted by epoch,
+// checkPoints is in the order newCheckPoints returned.  panicked reports a run-time panic of
+// getProtectedSnapshots (it indexes liveSnapshots[0]; its only caller never passes an empty list).
+func VerifProtectedSnapshots(numSnapshotsToKeep int, intervalNanos int64, live []VerifSnapMeta) (
+	protected []VerifSnapMeta, checkPoints []VerifSnapMeta, panicked bool) {
+	s := &Scorch{
+		numSnapshotsToKeep:       numSnapshotsToKeep,
+		rollbackSamplingInterval: time.Duration(intervalNanos),
+	}
+	defer func() {
+		if e := recover(); e != nil {
+			protected, checkPoints, panicked = nil, nil, true
+		}
+	}()
+	m := s.getProtectedSnapshots(verifMetaIn(live))
+	return verifMapOut(m), verifMetaOut(newCheckPoints(m)), false
+}
+
+// VerifBoundaryCheckPoint is getBoundaryCheckPoint.
+func VerifBoundaryCheckPoint(retentionFactor float64, checkPoints []VerifSnapMeta, timeNanos int64) int64 {
+	s := &Scorch{
+		rollbackRetentionFactor: retentionFactor,
+		checkPoints:             verifMetaIn(checkPoints),
+	}
+	return s.getBoundaryCheckPoint(time.Unix(0, timeNanos).UTC()).UnixNano()
+}
+
+// VerifPurgeResult is what one removeOldBoltSnapshots call did to a root.bolt holding the given
+// snapshot buckets.  The wall clock is read before getLiveSnapshots, between it and
+// removeOldBoltSnapshots, and after (both read time.Now themselves).
+type VerifPurgeResult struct {
+	NowBefore, NowMid, NowAfter int64
+	Live                        []VerifSnapMeta // getLiveSnapshots, in the order returned
+	NumRemoved                  int
+	BoltEpochs                  []uint64 // RootBoltSnapshotEpochs afterwards (newest first)
+	Eligible                    []uint64 // s.eligibleForRemoval afterwards
+	CheckPoints                 []VerifSnapMeta
+}
+
+// VerifRemoveOldBoltSnapshots creates dir/root.bolt with one snapshot bucket per element of
+// persisted (only the meta bucket with the time stamp, which is all the retention code reads),
+// then runs getLiveSnapshots and removeOldBoltSnapshots on it.
+func VerifRemoveOldBoltSnapshots(dir string, numSnapshotsToKeep int, intervalNanos int64,
+	retentionFactor float64, checkPoints []VerifSnapMeta, persisted []VerifSnapMeta,
+	eligible []uint64) (res VerifPurgeResult, err error) {
+	rootBolt, err := util.OpenBolt(dir+string(os.PathSeparator)+"root.bolt", 0o600, nil)
+	if err != nil {
+		return res, err
+	}
+	defer func() {
+		if cerr := rootBolt.Close(); err == nil {
+			err = cerr
+		}
+	}()
+	err = rootBolt.Update(func(tx *util.BoltTxImpl) error {
+		snapshots, err := tx.CreateBucketIfNotExists(util.BoltSnapshotsBucket)
+		if err != nil {
+			return err
+		}
+		for _, m := range persisted {
+			sb, err := snapshots.CreateBucketIfNotExists(encodeUvarintAscending(nil, m.Epoch))
+			if err != nil {
+				return err
+			}
+			mb, err := sb.CreateBucketIfNotExists(util.BoltMetaDataKey)
+			if err != nil {
+				return err
+			}
+			tsb, err := time.Unix(0, m.TimeNanos).UTC().MarshalText()
+			if err != nil {
+				return err
+			}
+			if err = mb.Put(util.BoltMetaDataTimeStamp, tsb, nil); err != nil {
+				return err
+			}
+		}
+		return nil
+	})
+	if err != nil {
+		return res, err
+	}
+	s := &Scorch{
+		path:                     dir,
+		rootBolt:                 rootBolt,
+		numSnapshotsToKeep:       numSnapshotsToKeep,
+		rollbackSamplingInterval: time.Duration(intervalNanos),
+		rollbackRetentionFactor:  retentionFactor,
+		checkPoints:              verifMetaIn(checkPoints),
+		eligibleForRemoval:       append([]uint64(nil), eligible...),
+	}
+	res.NowBefore = time.Now().UnixNano()
+	live, err := s.getLiveSnapshots()
+	if err != nil {
+		return res, fmt.Errorf("getLiveSnapshots: %v", err)
+	}
+	res.Live = verifMetaOut(live)
+	res.NowMid = time.Now().UnixNano()
+	res.NumRemoved, err = s.removeOldBoltSnapshots()
+	if err != nil {
+		return res, fmt.Errorf("removeOldBoltSnapshots: %v", err)
+	}
+	res.NowAfter = time.Now().UnixNano()
+	res.BoltEpochs, err = s.RootBoltSnapshotEpochs()
+	if err != nil {
+		return res, err
+	}
+	res.Eligible = append([]uint64{}, s.eligibleForRemoval...)
+	res.CheckPoints = verifMetaOut(s.checkPoints)
+	return res, nil
+}
